@@ -28,11 +28,15 @@ struct Case {
 
 fn dist_json(d: &Dist) -> Value {
     json!({
-        "bincode_hex": hex::encode(bincode::serialize(d).unwrap()),
+        "words": crate::mach::enc_dist(d),
         "readable": format!("{:?}", d),
     })
 }
 fn dist_from(v: &Value) -> Option<Dist> {
+    if let Some(w) = v["words"].as_str() {
+        return crate::mach::dec_dist(w);
+    }
+    // files written before the structural format
     bincode::deserialize(&hex::decode(v["bincode_hex"].as_str()?).ok()?).ok()
 }
 fn case_json(c: &Case) -> Value {
